@@ -592,10 +592,15 @@ func cdxInputs(c *engine.Ctx) {
 	if c.Thorough() {
 		maxN = 4
 	}
-	c.Group("cdx-generated")
-	refs := []string{"", "a", "b"}
+	cdxForests(c, "cdx-generated", []string{"", "a", "b"}, maxN)
+	// references that coincide under trimming or case folding are different references
+	cdxForests(c, "cdx-near-references", []string{"a", "a ", " a", "A"}, maxN-1)
+}
+
+func cdxForests(c *engine.Ctx, group string, refs []string, maxN int) {
+	c.Group(group)
 	vers := []string{"1.3", "1.4", "1.5"}
-	c.Bound("cdx-generated", fmt.Sprintf("every component forest with <=%d components (nesting <=3), refs over {absent,a,b} (duplicates between siblings, parent/child, root/child), metadata component {absent, ref a, no ref} x {1.3,1.4,1.5} x all layouts", maxN))
+	c.Bound(group, fmt.Sprintf("every component forest with <=%d components (nesting <=3), refs over %q (\"\" = absent; duplicates between siblings, parent/child, root/child), metadata component {absent, ref a, no ref} x {1.3,1.4,1.5} x all layouts", maxN, refs))
 	var rec func(cur []comp)
 	rec = func(cur []comp) {
 		if c.Expired() {
